@@ -4,6 +4,7 @@ import tmplgen as G
 from framework import Check
 
 MODES_QUICK = [("wf", 170), ("close", 40), ("names", 60), ("topics", 30), ("floats", 30), ("struct", 70)]
+CONF_QUICK = [("wf", 110), ("close", 30), ("names", 20)]     # Coordinator.Configure cases, 6 Configure runs each
 
 
 def pre(chk):
@@ -21,52 +22,78 @@ def _batch(rng, scale, modes):
     return cases
 
 
+def _conf_batch(rng, scale, modes):
+    templates = G.shipped_templates(C.REPO)
+    return [G.gen_conf(rng, templates, mode) for mode, n in modes for _ in range(max(1, int(n * scale)))]
+
+
 def run(chk, failed):
     scale = 1.0 if not chk.thorough else 25.0
     lines, parsed, tags = [], [], []
     for ln in C.read_corpus(chk.pid):
         lines.append(ln)
-        parsed.append(G.parse(ln))
+        parsed.append(G.parse_any(ln))
         tags.append("corpus")
     for c in _batch(chk.rng, scale, MODES_QUICK):
         ln = G.fmt_case(c)
         lines.append(ln)
-        parsed.append(G.parse(ln))
+        parsed.append(G.parse_any(ln))
         tags.append(c["mode"])
+    for c in _conf_batch(chk.rng, scale if not chk.thorough else 8.0, CONF_QUICK):
+        ln = G.fmt_conf(c)
+        lines.append(ln)
+        parsed.append(G.parse_any(ln))
+        tags.append("conf")
     if failed:
         # a table obligation (typecheck / json_skeleton_ok of a shipped template, data_offers) or a theorem no longer
         # checks: look for a concrete status on which the real template fails, inside the property's domain
         for c in _batch(chk.rng, 8.0 * scale, [("wf", 170), ("close", 60)]):
             ln = G.fmt_case(c)
             lines.append(ln)
-            parsed.append(G.parse(ln))
+            parsed.append(G.parse_any(ln))
             tags.append("focused")
     chk.rule = ("every shipped template (config/*.tmpl, parsed as Coordinator.Configure does) x generated group statuses: "
                 "status -1..7/100/2^31, 0-6 listed partitions (statuses WARN/STOP/STALL/REWIND and out-of-table), Maxlag nil / listed / "
                 "unlisted OK partition with nil Start/End, commit lags nil/non-nil, extras nil/empty/partial/full, open and close "
                 "(stateGood) variants, JSON-safe and hostile names, NaN completeness, and structures outside status_wf "
-                "(nil partition entry, nil Start/End); non-trivial = at least one partition is listed; distinct by case line")
+                "(nil partition entry, nil Start/End); plus notifier sections of 1-4 modules (classes http/email/null, template-open / "
+                "template-close any pair of shipped files, send-close on/off, files shared between modules) run through the real "
+                "Coordinator.Configure with its default parser 6 times each, executing the template objects it stored; "
+                "non-trivial = at least one partition is listed; distinct by case line")
     impl, model, mism = chk.differential("tmpl", "tmpl", "TestVerifProbeTmpl", lines, name="render")
     reported = 0
     failing = 0
     for i, (ln, c, tg, a, b) in enumerate(zip(lines, parsed, tags, impl, model)):
         if c["partitions"]:
             chk.nontrivial.add(C.case_hash(ln))
+        if c.get("kind") == "conf":
+            chk.count("conf:modules=%d" % len(c["mods"]))
+            for m in c["mods"]:
+                chk.count("conf:class=" + m["class"])
+                chk.count("conf:send-close=%d" % m["send_close"])
+            if len(set(m["open"] for m in c["mods"]) | set(m["close"] for m in c["mods"] if m["send_close"])) \
+                    < len(c["mods"]) + sum(m["send_close"] for m in c["mods"]):
+                chk.count("conf:shared-file")
         chk.count("template:" + c["template"])
         chk.count("status:" + G.STATUS.get(c["status"], "other"))
         chk.count("mode:" + tg)
-        chk.count("impl:" + a.split(" ")[0] + ("" if " " not in a else " " + a.split(" ")[1]))
-        fails = G.oracle(c, a)
+        if c.get("kind") != "conf":
+            chk.count("impl:" + a.split(" ")[0] + ("" if " " not in a else " " + a.split(" ")[1]))
+        else:
+            chk.count("conf:impl=" + ("mismatch" if ("MISMATCH" in a or a.startswith("CONFIGURE-PANIC")) else "agrees"))
+        fails = G.oracle_any(c, a)
         if fails:
             # no recorded, unrepaired finding exists for C20 (F11 was repaired by /repo commit 3f5942d and suppresses
             # nothing): every failure is a violation
             failing += 1
             if reported < 5:
                 reported += 1
-                chk.violation("render_%d" % i, {
-                    "kind": "input", "probe": "notifier/TestVerifProbeTmpl", "case": ln, "describe": G.describe(c),
+                chk.violation(("conf_%d" if c.get("kind") == "conf" else "render_%d") % i, {
+                    "kind": "input", "probe": "notifier/TestVerifProbeTmpl", "case": ln, "describe": G.describe_any(c),
                     "impl_output": a, "model_output": b, "oracle_verdict": fails,
-                    "broken": "C20: every shipped template renders (to well-formed JSON) for every status",
+                    "broken": ("C20: every configured module executes the template its template-open / template-close key names "
+                               "(C20_module_renders_configured_template), and it renders" if c.get("kind") == "conf" else
+                               "C20: every shipped template renders (to well-formed JSON) for every status"),
                     "cmd": "bin/check C20 --replay <this file>"})
     # what the data offers: one-action templates against every documented field / helper, on the real code
     offers = chk.run_impl("tmpl", "TestVerifProbeTmpl", [G.offer_case(t) for t, _ in G.OFFERS], name="offers",
@@ -84,12 +111,12 @@ def run(chk, failed):
                 "broken": "C20: the data handed to templates offers the documented fields and helper functions",
                 "cmd": "bin/check C20 --replay <this file>"})
     for k in (0, len(lines) // 3, (2 * len(lines)) // 3, len(lines) - 1):
-        chk.sample({"case": lines[k], "describe": G.describe(parsed[k]), "impl": impl[k], "model": model[k]})
+        chk.sample({"case": lines[k], "describe": G.describe_any(parsed[k]), "impl": impl[k], "model": model[k]})
     # model and implementation disagree on a case the oracle accepts: the correspondence is broken, not the property
     if mism and not reported:
         for (i, ln, a, b) in mism[:3]:
             chk.violation("corr_%d" % i, {
-                "kind": "input", "probe": "notifier/TestVerifProbeTmpl", "case": ln, "describe": G.describe(parsed[i]),
+                "kind": "input", "probe": "notifier/TestVerifProbeTmpl", "case": ln, "describe": G.describe_any(parsed[i]),
                 "impl_output": a, "model_output": b, "broken": "corr:notifier.executeTemplate (Tmpl.exec / Json.pieces_valid)",
                 "oracle_verdict": "the property's oracle holds on the implementation's output for this case"},
                 found_input=False)
@@ -130,12 +157,15 @@ def replay(path):
         return 1 if fails else 0
     pre(chk)
     C.build_coq()
-    impl, model, mism = chk.differential("tmpl", "tmpl", "TestVerifProbeTmpl", [case], name="replay",
-                                         extra_env={"VERIF_TMPL_ERRORS": "1"},
-                                         project=lambda s: " ".join(s.split(" ")[:2]) if s.startswith("OK") else s.split(" ")[0])
-    fails = G.oracle(G.parse(case), impl[0])
+    if case.startswith("conf "):
+        impl, model, mism = chk.differential("tmpl", "tmpl", "TestVerifProbeTmpl", [case], name="replay")
+    else:
+        impl, model, mism = chk.differential("tmpl", "tmpl", "TestVerifProbeTmpl", [case], name="replay",
+                                             extra_env={"VERIF_TMPL_ERRORS": "1"},
+                                             project=lambda s: " ".join(s.split(" ")[:2]) if s.startswith("OK") else s.split(" ")[0])
+    fails = G.oracle_any(G.parse_any(case), impl[0])
     print("case:   " + case)
-    print("what:   %s" % G.describe(G.parse(case)))
+    print("what:   %s" % G.describe_any(G.parse_any(case)))
     print("impl:   " + impl[0])
     print("model:  " + model[0])
     print("oracle: " + (", ".join(fails) if fails else "holds"))
